@@ -7,6 +7,7 @@ from ..probe import call, rebind
 from ..ref import bits
 
 LEVEL = "exploration"
+BRANCH_TARGETS = ['pyModeS.py_common:crc', 'pyModeS.py_common:crc_legacy', 'pyModeS.extra.rtlreader:RtlReader._check_msg']
 TECHNIQUE = 'runtime monitoring: reference-model oracle (bit-serial polynomial division) on real crc calls, icontract post-condition on internal calls, exhaustive error-pattern executions, offline syndrome checker'
 LEVEL_TEXT = "Exploration: held on N observed executions. Every frame is judged by an independent remainder computation; error detection is executed for every pattern of weight 1-3 (quick) / 1-5 (thorough, 134 M real calls on 112 bits) and every burst offset x length; the space of frames itself (2^112) is sampled, so the claim is 'exact on everything observed', not a proof of the division loop."
 LEVEL_RULE = (
